@@ -12,8 +12,8 @@ RULE = ("the four documented laws as generator templates (MultiCrossBlock = Merg
         "witness where it accepts both); oracle: both constructors accept or both refuse, equal trials_per_sample(), equal solution "
         "multisets by level names; non-trivial = >=2 solutions; distinct = (law, design skeleton)")
 ASSUMPTIONS = ["fake peers return only genuine models of the clauses they receive"]
-BUDGET = {"quick": 45, "thorough": 900}
-RUNS = {"quick": 2500, "thorough": 75000}
+BUDGET = {"quick": 300, "thorough": 900}
+RUNS = {"quick": 1500, "thorough": 75000}
 LAWS = ["multicross=merge", "repeat=merge", "repeat-empty=block", "merge-single=block", "cross=multicross-weight"]
 
 
